@@ -112,3 +112,15 @@ func (r *Rng) Mutations(b []byte, n int) []Mut {
 	}
 	return out
 }
+
+// FromTok decodes a protocol token.
+func FromTok(s string) []byte {
+	if s == "-" || s == "" {
+		return []byte{}
+	}
+	b, err := hexDecode(s)
+	if err != nil {
+		panic("bad token " + s)
+	}
+	return b
+}
